@@ -14,7 +14,8 @@ class Boom(Exception):
 
 
 EXN = {'generic': (RuntimeError, 'XGeneric'), 'assertion': (AssertionError, 'XAssertion'), 'validation': (None, 'XValidation'),
-       'cast': (None, 'XCast'), 'unique': (None, 'XUniqueKey'), 'processor': (None, 'XProcessorError'), 'sourceload': (None, 'XSourceLoad')}
+       'cast': (None, 'XCast'), 'unique': (None, 'XUniqueKey'), 'processor': (None, 'XProcessorError'), 'sourceload': (None, 'XSourceLoad'),
+       'cast_nested': (None, 'XCast'), 'stopiteration': (None, 'XGeneric')}
 
 
 def make_exc(kind):
@@ -27,6 +28,12 @@ def make_exc(kind):
     if kind == 'cast':
         from tableschema.exceptions import CastError
         return CastError('injected cast error', errors=[])
+    if kind == 'cast_nested':
+        # the shape tableschema raises for a row with bad cells: one error carrying the per-cell errors
+        from tableschema.exceptions import CastError
+        return CastError('injected cast error with nested errors', errors=[CastError('nested cell error 1'), CastError('nested cell error 2')])
+    if kind == 'stopiteration':
+        return StopIteration('injected')
     if kind == 'unique':
         from tableschema.exceptions import UniqueKeyError
         return UniqueKeyError('injected unique key error')
@@ -151,7 +158,12 @@ def run_pipeline(n, steps, workdir, via='datastream', sparse=None):
                 Flow(*links).process()
     except Exception as e:
         cause = getattr(e, 'cause', None)
-        outcome = ['raised', type(e).__name__, type(cause).__name__ if cause is not None else None]
+        chain, c = [], cause
+        while c is not None and len(chain) < 4:
+            chain.append(type(c).__name__)
+            c = c.__cause__ or c.__context__
+        outcome = ['raised', type(e).__name__, type(cause).__name__ if cause is not None else None,
+                   str(cause)[:80] if cause is not None else None, chain]
     art = {}
     for k, st in enumerate(steps):
         if st['t'] == 'dump':
